@@ -1,15 +1,15 @@
 // C01 harness: wire codecs round trip and frame layout (codec/v1_*.go, v2_*.go, marshal.go,
 // codec.go).
 //
-// input    (1 ver thrArg cipher keyseed (pkt ...) (chunk ...) mode)   a stream of frames; mode 0: ReadPacket,
-// observed ((enc) (dec) (zip) (unzip) (wres ...) (rres ...))           1: ReadHeadBody + UnmarshalPacket.  ALL
+// input    (1 ver thrArg cipher keyseed (pkt ...) (chunk ...) mode)   a stream of frames; mode 0/2/4: ReadPacket,
+// observed ((enc) (dec) (zip) (unzip) (wres ...) (rres ...))           1/3/5: ReadHeadBody + UnmarshalPacket (2,3: through bufio.Reader, 4,5: bufio of 64 bytes).  ALL
 //            decoded packets are kept and looked at only after the whole stream (and a second pass over
 //            it with the same codec) has been decoded
 //            wres = (panicked ret err (#write ...) pkt_after crc_go)
 //            rres = (panicked errkind pkt consumed wanted maxcap)
 // input    (3 data (chunk ...))                                  WriteLenData / ReadLenData
 // observed ((panicked ret err (#write ...)) (panicked errkind #data consumed wanted maxcap))
-// input    (4 ver nref bodylen seed thrArg)                      frame-size / reference-count limit probe:
+// input    (4 ver nref bodylen seed thrArg [pattern])            frame-size / reference-count limit probe:
 // observed (panicked ret err nbytes nwrites decoded)             a packet with nref references and an
 //                                                                incompressible body of bodylen bytes (regenerated
 //                                                                from the seed), no cipher, thrArg >= bodylen so that
@@ -18,6 +18,7 @@
 package main
 
 import (
+	"bufio"
 	"bytes"
 	"hash/crc32"
 	"io"
@@ -128,13 +129,31 @@ func runStream(in Sx) Sx {
 		pkt                          *packet.Packet
 	}
 	var keep []kept
+	// modes 2..5: the same through a bufio.Reader (what a connection uses), default size and small
+	var rd io.Reader = r
+	var br *bufio.Reader
+	switch mode {
+	case 2, 3:
+		br = bufio.NewReader(r)
+	case 4, 5:
+		br = bufio.NewReaderSize(r, 64)
+	}
+	if br != nil {
+		rd = br
+	}
 	for i := 0; i < nframes+1; i++ {
 		before := len(decRec.Dec.Keys())
-		k := readOne(enc, r, decRec.AsCryptor(), mode)
+		k := readOne(enc, rd, decRec.AsCryptor(), mode)
 		for _, d := range decRec.Dec.Vals()[before:] {
 			AddUnzip(unzipT, d)
 		}
-		keep = append(keep, kept{k.pn, k.kind, r.Pos, r.Wanted - r.Start, r.MaxCap, k.pkt})
+		if br != nil {
+			// the decoder's position is the reader's minus what bufio holds; what it asked of
+			// the underlying reader is bufio's business (-1: not compared)
+			keep = append(keep, kept{k.pn, k.kind, r.Pos - br.Buffered(), -1, -1, k.pkt})
+		} else {
+			keep = append(keep, kept{k.pn, k.kind, r.Pos, r.Wanted - r.Start, r.MaxCap, k.pkt})
+		}
 	}
 	// a second pass over the same bytes with the same codec (packets thrown away): decoding more
 	// frames must not disturb the packets already handed out
@@ -142,7 +161,7 @@ func runStream(in Sx) Sx {
 		r2 := NewChunkReader(stream, nil)
 		c2 := NewCipher(cidx, keyseed)
 		for i := 0; i < nframes; i++ {
-			readOne(enc, r2, c2, 1-mode)
+			readOne(enc, r2, c2, 1-mode%2)
 		}
 	}
 	for _, k := range keep {
@@ -158,12 +177,14 @@ type oneRead struct {
 }
 
 // readOne: one frame into a fresh packet, by ReadPacket (mode 0) or ReadHeadBody+UnmarshalPacket
-func readOne(enc codec.Encoder, r *ChunkReader, dec cipher.BlockCryptor, mode int) oneRead {
-	r.Begin()
+func readOne(enc codec.Encoder, r io.Reader, dec cipher.BlockCryptor, mode int) oneRead {
+	if cr, ok := r.(*ChunkReader); ok {
+		cr.Begin()
+	}
 	pkt := packet.Make()
 	var err error
 	var p bool
-	if mode == 0 {
+	if mode%2 == 0 {
 		p, _ = Catch(func() { err = enc.ReadPacket(r, dec, pkt) })
 	} else {
 		p, _ = Catch(func() {
@@ -318,7 +339,24 @@ func (w *countWriter) Write(p []byte) (int, error) {
 	return len(p), nil
 }
 
-func limitPacket(ver, nref, bodylen int, seed uint64) *packet.Packet {
+// body patterns of the limit / size probes: 0 pseudo-random (incompressible), 1 zeros,
+// 2 one 16-byte row repeated
+func patternBody(seed uint64, n, pat int) []byte {
+	switch pat {
+	case 1:
+		return make([]byte, n)
+	case 2:
+		row := GenBytes(uint32(seed)|1, 16, 255)
+		b := make([]byte, n)
+		for i := range b {
+			b[i] = row[i%16]
+		}
+		return b
+	}
+	return GenBytes(uint32(seed)|1, n, 255)
+}
+
+func limitPacket(ver, nref, bodylen int, seed uint64, pat int) *packet.Packet {
 	rng := NewRng(seed)
 	p := packet.Make()
 	p.Cmd = int32(rng.Next())
@@ -330,15 +368,19 @@ func limitPacket(ver, nref, bodylen int, seed uint64) *packet.Packet {
 		p.AddRefers(fatchoy.NodeID(uint32(rng.Next())))
 	}
 	if bodylen > 0 {
-		p.Body_ = GenBytes(uint32(seed)|1, bodylen, 255)
+		p.Body_ = patternBody(seed, bodylen, pat)
 	}
 	return p
 }
 
 func runLimit(in Sx) Sx {
 	ver, nref, bodylen, seed, thr := in.At(1).AsInt(), in.At(2).AsInt(), in.At(3).AsInt(), in.At(4).Uint64(), in.At(5).AsInt()
-	p := limitPacket(ver, nref, bodylen, seed)
-	orig := limitPacket(ver, nref, bodylen, seed)
+	pat := 0
+	if in.Len() > 6 {
+		pat = in.At(6).AsInt()
+	}
+	p := limitPacket(ver, nref, bodylen, seed, pat)
+	orig := limitPacket(ver, nref, bodylen, seed, pat)
 	enc := NewEncoder(ver, thr)
 	w := &countWriter{}
 	var n int
@@ -534,7 +576,7 @@ func gen(a Args, out *Out) {
 	emit := func(kind string, in Sx) {
 		if in.At(0).Int64() == 1 && in.Len() == 7 {
 			// how the stream is read back: ReadPacket, or ReadHeadBody + UnmarshalPacket
-			in = ListOf(append(append([]Sx(nil), in.L...), Int(int64(rng.Intn(2)))))
+			in = ListOf(append(append([]Sx(nil), in.L...), Int(int64(rng.Intn(6)))))
 		}
 		out.Case(kind, true, in, run(in))
 	}
@@ -599,6 +641,25 @@ func gen(a Args, out *Out) {
 				emit("preset-bits", List(Int(1), Int(int64(ver)), Int(0), Int(int64(cidx)), Uint(rng.Next()&0xFFFFFFFF), List(p), ListOf(nil)))
 			}
 		}
+	}
+	// 1c'. bursts of 300 small uncompressed frames read through a bufio.Reader over chunked delivery
+	// (a connection's reader), every packet looked at only after the whole stream
+	for i, mode := range []int{2, 3, 2, 3} {
+		ver := 1 + i/2
+		var ps []Sx
+		for j := 0; j < 300; j++ {
+			d, _ := DataSx(uint32(rng.Next()), rng.Intn(40), 255, 65)
+			ps = append(ps, List(Int(int64(int32(rng.Next()))), Int(int64(rng.Intn(65536))), Int(0x20), Int(1), Uint(uint64(uint32(rng.Next()))), ListOf(nil), List(Int(1), d)))
+		}
+		var sizes []Sx
+		for j := 0; j < 40; j++ {
+			sizes = append(sizes, Int(int64(rng.PickInt(1000, 1460, 700))))
+		}
+		cidx := 0
+		if i%2 == 1 {
+			cidx = 1 + rng.Intn(8)
+		}
+		emit("burst-bufio", List(Int(1), Int(int64(ver)), Int(1<<24), Int(int64(cidx)), Uint(rng.Next()&0xFFFFFFFF), ListOf(ps), ListOf(sizes), Int(int64(mode))))
 	}
 	// 1d. the SAME packet object encoded two or three times (retransmission, broadcast, one packet
 	// through several codecs): every emitted frame must decode to the original packet.  Byte and
@@ -717,6 +778,17 @@ func gen(a Args, out *Out) {
 				emit("limit", List(Int(4), Int(int64(ver)), Int(int64(nref)), Int(int64(bl)), Uint(rng.Next()&0xFFFFFFFF), Int(0)))
 				out.Count("limit-probe:compressed")
 			}
+		}
+		// big, highly compressible bodies (zeros, one row repeated), far above 1 MiB raw: their frames
+		// are tiny, well within the limits, and must come back from the decoder
+		bigs := []int{200 << 10, 1<<20 + 1, 2 << 20, 3<<20 + 17}
+		if ver == 2 {
+			bigs = append(bigs, 4<<20, 7<<20, limit-hs-4)
+		}
+		for i, bl := range bigs {
+			pat := 1 + i%2
+			emit("big-compressible", List(Int(4), Int(int64(ver)), Int(int64(i%2)), Int(int64(bl)), Uint(rng.Next()&0xFFFFFFFF), Int(0), Int(int64(pat))))
+			out.Count("limit-probe:big-compressible")
 		}
 		for _, nref := range []int{255, 256, 257, 300} {
 			emit("limit", List(Int(4), Int(int64(ver)), Int(int64(nref)), Int(int64(rng.Intn(100))), Uint(rng.Next()&0xFFFFFFFF), Int(1<<30)))
